@@ -27,7 +27,8 @@ Lemma cwf_eq theta l ks :
   match ex_param (Node l ks) with
   | Some p =>
       match lookup theta p with
-      | Some (VExpr v) => negb (is_wrap (tlabel v)) && negb (term_eqb v (mk_ex_param p))
+      | Some (VExpr v) => negb (is_wrap (tlabel v)) && negb (term_eqb v (mk_ex_param p)) &&
+                            is_expr_kind (tlabel v)
       | Some (VType _) => false
       | _ => true
       end
@@ -207,16 +208,17 @@ Proof.
     rewrite apply_eq. unfold apply_node. rewrite Etp, Eep. unfold bound_term.
     assert (Hid : sup (Node la ka) (Node la ka) = Some [(p, VIdentity)]) by (apply sup_identity_at_expr; exact Eep).
     destruct (lookup theta p) as [[v|v|]|] eqn:El; try discriminate.
-    - apply andb_true_iff in Hc. destruct Hc as [Hw Hne].
+    - apply andb_true_iff in Hc. destruct Hc as [Hc Hek].
+      apply andb_true_iff in Hc. destruct Hc as [Hw Hne].
       apply negb_true_iff in Hw. apply negb_true_iff in Hne.
       destruct (is_wrap_false_parts _ Hw) as [W1 W2].
       exists [(p, VExpr v)]. repeat split.
       + rewrite Ea in *. destruct v as [lv kv]. unfold mk_ex_param. rewrite sup_eq. unfold sup_step.
         change (is_ty_wrap (K "EPath" "")) with false. change (is_type_kind (K "EPath" "")) with false.
         change (is_ex_group (K "EPath" "")) with false. change (is_expr_kind (K "EPath" "")) with true.
-        cbn [tlabel] in W2. rewrite W2. cbv iota. cbn [andb].
+        cbn [tlabel] in W2, Hek. rewrite W2. cbv iota. cbn [andb].
         assert (Ht : ty_param (Node (K "EPath" "") [Node (K "ONone" "") []; mk_path_ident p]) = None) by reflexivity.
-        unfold mk_ex_param in Eep. rewrite Ht, Eep. unfold param_vs, subs_ex.
+        unfold mk_ex_param in Eep. rewrite Ht, Eep, Hek. unfold param_vs, subs_ex.
         destruct (ex_param (Node lv kv)) as [q|] eqn:Eq; [|reflexivity].
         destruct (String.eqb p q) eqn:Epq; [|reflexivity].
         apply String.eqb_eq in Epq; subst q. apply ex_param_inv in Eq.
